@@ -395,6 +395,18 @@ class Body:
                 return self.canon({"l": tgt["l"], "p": list(tgt["p"]) + list(proj[1:]), "ty": place.get("ty")}, depth + 1)
         return place
 
+    def through_ref(self, place, depth=0):
+        """canonical place an operand place denotes or points to: a bare
+        reference temporary `_t` (single def `&P`) is replaced by P"""
+        place = self.canon(place)
+        while depth < 20 and not place["p"]:
+            tgt = self.ref_target(place["l"])
+            if tgt is None:
+                break
+            place = self.canon(tgt)
+            depth += 1
+        return place
+
     def local_name(self, l):
         return self.locals[l].get("name")
 
